@@ -40,6 +40,18 @@ type SeqItem = (Result<SpecMessage, Vec<DecodeError>>, usize, usize);
 /// k successive decodes from one reader over `b`:
 /// (result, remaining after the call, highest octet index addressed so far).
 fn decode_seq(b: &[u8], k: usize, opts: Opts, rcfg: &ReaderCfg) -> Result<Vec<SeqItem>, (usize, Caught)> {
+    let mut sink = Vec::new();
+    decode_seq_rf(b, k, opts, rcfg, &mut sink)
+}
+
+/// As `decode_seq`; the requests a `Refusing` reader declined go to `declined`.
+fn decode_seq_rf(
+    b: &[u8],
+    k: usize,
+    opts: Opts,
+    rcfg: &ReaderCfg,
+    declined: &mut Vec<(usize, usize)>,
+) -> Result<Vec<SeqItem>, (usize, Caught)> {
     let mut out = Vec::new();
     match rcfg {
         ReaderCfg::Real => {
@@ -50,8 +62,11 @@ fn decode_seq(b: &[u8], k: usize, opts: Opts, rcfg: &ReaderCfg) -> Result<Vec<Se
                 out.push((res.map(|m| from_crate_msg(&m)), r.len(), 0));
             }
         }
-        ReaderCfg::Slice | ReaderCfg::Reentrant { .. } => {
+        ReaderCfg::Slice | ReaderCfg::Reentrant { .. } | ReaderCfg::Refusing(_) => {
             let mon = Monitor::new(step_budget(b.len()) * k as u64 + 64, false);
+            if let ReaderCfg::Refusing(c) = rcfg {
+                mon.borrow_mut().refuse_cuts = c.clone();
+            }
             // the nested use happens once, somewhere in the sequence
             let _slot = arm_reentry(&mon, rcfg);
             let mut r = SimSlice::new(b, mon.clone());
@@ -62,6 +77,7 @@ fn decode_seq(b: &[u8], k: usize, opts: Opts, rcfg: &ReaderCfg) -> Result<Vec<Se
                 let rem = r.len();
                 out.push((res.map(|m| from_crate_msg(&m)), rem, hi));
             }
+            *declined = std::mem::take(&mut mon.borrow_mut().refusals);
         }
         ReaderCfg::Owned | ReaderCfg::Segmented(_) => {
             let cuts: &[usize] = match rcfg {
@@ -142,7 +158,8 @@ fn exec_c08(case: &Case08, obs: &mut Obs) -> Result<(), Failure> {
             buf.extend_from_slice(trail);
             let total = buf.len();
             obs.steps += msgs.len() as u64;
-            let seq = decode_seq(&buf, msgs.len(), o, reader).map_err(|(i, c)| {
+            let mut declined = Vec::new();
+            let seq = decode_seq_rf(&buf, msgs.len(), o, reader, &mut declined).map_err(|(i, c)| {
                 Failure::new(
                     "C08",
                     "back-to-back-decoding",
@@ -157,9 +174,32 @@ fn exec_c08(case: &Case08, obs: &mut Obs) -> Result<(), Failure> {
                     ),
                 )
             })?;
+            let refusing = matches!(reader, ReaderCfg::Refusing(_));
+            if refusing {
+                obs.count("fault:reader-declines-spans");
+                obs.add("fault:read-declined", declined.len() as u64);
+                if hidden_payload_declined(&buf, &declined) {
+                    obs.count("skipped:hidden-payload-declined-unspecified");
+                    return Ok(());
+                }
+            }
             for (j, (res, rem, hi)) in seq.iter().enumerate() {
                 let cls = kind(&msgs[j].0);
-                if res.as_ref().ok() != alone[j].as_ref().ok() || res.is_err() {
+                if refusing {
+                    // read faults: results may differ by read errors only;
+                    // a control message is still consumed to its declared end
+                    read_fault_consistent(&alone[j], res).map_err(|d| {
+                        Failure::new(
+                            "C08",
+                            "read-fault-changes-only-read-errors",
+                            cls,
+                            format!("decode #{j} through a reader that declines spans across {:?}: {}; buffer {}", reader, d, hexcut(&buf)),
+                        )
+                    })?;
+                    if cls != "control" && res.is_err() {
+                        break; // a declined payload is not consumed: nothing to say about what follows
+                    }
+                } else if res.as_ref().ok() != alone[j].as_ref().ok() || res.is_err() {
                     return Err(Failure::new(
                         "C08",
                         "back-to-back-decoding",
@@ -371,6 +411,9 @@ impl Scenario for C08 {
             let total: usize = msgs.iter().map(|m| m.0.len()).sum();
             let reader = if sm.chance(1, 3) {
                 ReaderCfg::Real
+            } else if sm.chance(1, 8) && total + trail.len() <= 8192 {
+                // read faults
+                draw_refusing(&mut sm, total + trail.len())
             } else {
                 draw_reader(&mut sm, total + trail.len())
             };
